@@ -34,6 +34,11 @@ struct Shared
 
 thread_local! { static SH: RefCell<Shared> = RefCell::new(Shared::default()); }
 thread_local! { static EXPECT_PANIC: std::cell::Cell<bool> = std::cell::Cell::new(false); }
+// `spawn_rc_system_command[_from]` = spawn a system command + `AutoDespawner::prepare` on it. A batch of one `spawnsys`
+// followed by `top sigprepare` of exactly that system goes through it: the first operation makes the call and parks the
+// signal here, the second one picks it up.
+thread_local! { static RC_NEXT: std::cell::Cell<bool> = std::cell::Cell::new(false); }
+thread_local! { static RC_PARKED: RefCell<Option<AutoDespawnSignal>> = RefCell::new(None); }
 
 fn log(line: String) { SH.with(|s| s.borrow_mut().out.push(line)); }
 
@@ -880,7 +885,7 @@ fn top_acts(world: &mut World, t: usize, script: Vec<SAct>)
 {
     let owner = format!("top{t}");
     // a batch of one resource action, every other time: the `World`-level resource API (`ReactResWorldExt`), no `Commands`
-    if t % 2 == 0 && script.len() == 1
+    if (t % 2 == 0 || RC_NEXT.with(|c| c.get())) && script.len() == 1
     {
         let (plus, minus) = (format!("m+ {owner} 0 0"), format!("m- {owner} 0 0"));
         match script[0]
@@ -911,7 +916,20 @@ fn top_acts(world: &mut World, t: usize, script: Vec<SAct>)
                 if let Some(excl) = SH.with(|s| s.borrow().defs.get(def).map(|d| d.excl))
                 {
                     let name = next_system_name();
-                    let sys = if name % 2 == 0
+                    let sys = if RC_NEXT.with(|c| c.get())
+                    {
+                        let sig = match (name % 2 == 0, excl)
+                        {
+                            (true, true) => spawn_rc_system_command(world, make_exclusive(def, name)),
+                            (true, false) => spawn_rc_system_command(world, make_ordinary(def, name, None)),
+                            (false, true) => spawn_rc_system_command_from(world, SystemCommandCallback::new(make_exclusive(def, name))),
+                            (false, false) => spawn_rc_system_command_from(world, SystemCommandCallback::new(make_ordinary(def, name, None))),
+                        };
+                        let e = sig.entity();
+                        RC_PARKED.with(|p| *p.borrow_mut() = Some(sig));
+                        SystemCommand(e)
+                    }
+                    else if name % 2 == 0
                     {
                         if excl { world.spawn_system_command(make_exclusive(def, name)) } else { world.spawn_system_command(make_ordinary(def, name, None)) }
                     }
@@ -1005,7 +1023,12 @@ fn run_top(world: &mut World, t: usize, op: &STop)
         {
             if let Some(e) = resolve(*r)
             {
-                let sig = world.resource::<AutoDespawner>().prepare(e);
+                let parked = RC_PARKED.with(|p| p.borrow_mut().take());
+                let sig = match parked
+                {
+                    Some(sig) => { assert_eq!(sig.entity(), e, "parked signal of another entity"); sig }
+                    None => world.resource::<AutoDespawner>().prepare(e),
+                };
                 SH.with(|s| s.borrow_mut().sigs.push(vec![sig]));
             } else { top_acts(world, t, vec![]) }
         }
@@ -1078,6 +1101,8 @@ fn run_scenario(path: &str)
     BODIES.with(|b| b.set(0));
     CURRENT.with(|c| c.borrow_mut().clear());
     ZST_RUNS.with(|z| z.borrow_mut().clear());
+    RC_NEXT.with(|c| c.set(false));
+    RC_PARKED.with(|p| { let old = p.borrow_mut().take(); std::mem::forget(old); });
     SH.with(|s| *s.borrow_mut() = Shared{ defs: Arc::new(sc.defs.clone()), n_wr: sc.wrs.len(), n_ewr: sc.ewrs.len(), ..Default::default() });
 
     let result = std::panic::catch_unwind(std::panic::AssertUnwindSafe(|| {
@@ -1128,6 +1153,13 @@ fn run_scenario(path: &str)
                 if *on { app.world_mut().entity_mut(vmark).insert(VMark); } else { app.world_mut().entity_mut(vmark).remove::<VMark>(); }
             }
             if let STop::AppReactor(d, ts) = op { add_app_reactor(&mut app, t, *d, ts); continue }
+            let rc_next = match (op, sc.tops.get(t + 1))
+            {
+                (STop::Acts(a), Some(STop::SigPrepare(Ref::S(k)))) =>
+                    a.len() == 1 && matches!(a[0], SAct::SpawnSys(_)) && *k == SH.with(|s| s.borrow().sys_names.len()),
+                _ => false,
+            };
+            RC_NEXT.with(|c| c.set(rc_next));
             // a whole frame through the real schedules: `Last` = garbage collection, then the removal / despawn poll
             // (`App::update` = the schedules, then `World::clear_trackers`; a scenario writes it as `top update` followed by
             // `top cleartrackers`, the second of which is then already done)
